@@ -6,11 +6,14 @@ ops (one block = `begin …`, transactions, `end`):
   pay A B 5
   emit transfer:recipient=B&amount=            synthetic tx event appended to the block's history
   create auth=A+B ev=<event> acts=<a>|<a> rem=<gas remaining at RegisterTrigger>
-         event:  h:<height> | t:<unix seconds> | tx:<name>[:k=v&k=v]     (`~` stands for a space)
+         event:  h:<height> | t:<time> | tx:<name>[:k=v&k=v]             (`~` stands for a space)
+         time:   <unix seconds>[.<fraction, up to 9 digits>]             (kept in nanoseconds)
          action: send:<from>:<to>:<amt> | kill:<authority>:<id> | boom
   destroy A 3
-  begin h=21 t=1700000005 oog=3.0,4.1          oog = (trigger id . action index) that ran out of gas,
-                                               observed from the implementation
+  begin h=21 t=1700000005.25 used=3.0:7630,3.1:912
+                                               used = gas the handler of (trigger id . action index)
+                                               consumed on the gas meter it was given, observed from
+                                               the implementation (an absent entry is 0)
   end
   dump
 
@@ -18,7 +21,7 @@ Every verdict is the property evaluated on the *observed* history: the driver ke
 model's state, a store rebuilt only from the implementation's own answers (results, typed events,
 dumps) and judges each implementation output against that store — at most once (`ran_twice`), only
 detected (`ran_before_detection`, `ran_unknown_trigger`), FIFO (`fifo_order`), caps (`cap_count`,
-`cap_gas`), no starvation (`stopped_early`), all or nothing (`success_with_failed_action`,
+`cap_gas`), prepaid gas (`gas_used_above_prepaid`), no starvation (`stopped_early`), all or nothing (`success_with_failed_action`,
 `not_all_or_nothing:*`), detection (`detected_twice`, `detected_unregistered`,
 `detected_without_condition`), creation (`action_signer_not_authority`, `gas_limit_above_cap`,
 `gas_not_prepaid`, `id_reused`), destruction (`destroyed_by_stranger`, `destroyed_while_queued`,
@@ -50,6 +53,7 @@ structure DState where
   oevents : List AbciEvent := []     -- the block's event history as the implementation printed it
   executed : List Nat := []
   known : List (Nat × Trigger) := []
+  used : List ((Nat × Nat) × Nat) := []   -- this block's observed gas use per (trigger id, action)
 
 private def unesc (s : String) : String := s.replace "~" " "
 
@@ -59,10 +63,21 @@ private def parseAttrs (s : String) : List (String × String) :=
     | k :: rest => (unesc k, unesc ("=".intercalate rest))
     | [] => ("", "")
 
+/-- `<seconds>[.<fraction>]` → nanoseconds -/
+def parseTime? (s : String) : Option Nat :=
+  match s.splitOn "." with
+  | [sec] => (parseNat? sec).map (· * 1000000000)
+  | [sec, frac] =>
+    if frac.length = 0 ∨ frac.length > 9 then none else
+    match parseNat? sec, parseNat? (frac ++ String.ofList (List.replicate (9 - frac.length) '0')) with
+    | some a, some b => some (a * 1000000000 + b)
+    | _, _ => none
+  | _ => none
+
 def parseEvent (s : String) : Option Event :=
   match s.splitOn ":" with
   | ["h", n] => (parseNat? n).map .height
-  | ["t", n] => (parseNat? n).map .time
+  | ["t", n] => (parseTime? n).map .time
   | ["tx", name] => some (.tx (unesc name) [])
   | "tx" :: name :: rest => some (.tx (unesc name) (parseAttrs (":".intercalate rest)))
   | _ => none
@@ -80,13 +95,21 @@ def parseAbci (s : String) : Option AbciEvent :=
   | ty :: rest => some ⟨unesc ty, parseAttrs (":".intercalate rest)⟩
   | [] => none
 
-private def parseOog (s : String) : List (Nat × Nat) :=
+private def parseUsed (s : String) : List ((Nat × Nat) × Nat) :=
   (splitList s ",").filterMap fun e =>
-    match e.splitOn "." with
-    | [a, b] => match parseNat? a, parseNat? b with
-      | some a, some b => some (a, b)
+    match e.splitOn ":" with
+    | [k, g] => match k.splitOn ".", parseNat? g with
+      | [a, b], some g => match parseNat? a, parseNat? b with
+        | some a, some b => some ((a, b), g)
+        | _, _ => none
       | _, _ => none
     | _ => none
+
+def costOf (used : List ((Nat × Nat) × Nat)) (id i : Nat) : Nat :=
+  ((used.find? (·.1 == (id, i))).map (·.2)).getD 0
+
+def outcomeOf (s : String) : Outcome :=
+  if s == "ok" then .ok else if s == "oog" then .oog else if s == "panic" then .panic else .err
 
 private def j (xs : List String) (sep : String := ",") : String :=
   if xs.isEmpty then "-" else sep.intercalate xs
@@ -170,6 +193,9 @@ def verdictBegin (d : DState) (impl : String) : String :=
     let gasOf (i : Nat) := (d.o.gasLimits i).getD 0
     if ids.length > MaximumActions then "fail:cap_count"
     else if (ids.map gasOf).sum > MaximumQueueGas then "fail:cap_gas"
+    -- the work of a trigger's completed actions is within the gas its creator prepaid
+    else if xs.any fun x => !withinPrepaid (gasOf x.id) (costOf d.used x.id) (x.outs.map outcomeOf) then
+      "fail:gas_used_above_prepaid"
     else if ids.length < fitCount d.o q MaximumActions 0 then "fail:stopped_early"
     else
       let items := (qList d.o).take ids.length
@@ -396,15 +422,15 @@ def stepOp (d : DState) (ws : List String) (impl : Option String) : DState × St
       | .ok s' => ({ d with s := s', o := if impl.isNone then s' else o }, "ok", vd)
       | .error e => ({ d with o := o }, "err:" ++ e.toString, vd)
   | "begin" :: rest =>
-    match (kv rest "h") >>= parseNat?, (kv rest "t") >>= parseNat? with
+    match (kv rest "h") >>= parseNat?, (kv rest "t") >>= parseTime? with
     | some h, some t =>
-      let oogs := parseOog (field rest "oog")
-      let d := { d with height := h, time := t, events := [], oevents := [] }
+      let used := parseUsed (field rest "used")
+      let d := { d with height := h, time := t, events := [], oevents := [], used := used }
       let vd := v (verdictBegin d)
       let (o, ex) := match impl with
         | some i => if implOk then (observeBegin d.o i, (parseImplExec (field (words i) "exec")).map (fun (x : ImplExec) => x.id)) else (d.o, [])
         | none => (d.o, [])
-      match processTriggers d.s (fun id i => oogs.contains (id, i)) with
+      match processTriggers d.s (costOf used) with
       | some (s', xs) =>
         ({ d with s := s', o := if impl.isNone then s' else o,
                   executed := (if impl.isNone then xs.map (fun (x : Exec) => x.id) else ex) ++ d.executed },
